@@ -265,9 +265,36 @@ pub fn run_batch(cfg: &BatchCfg, spec: &PropSpec) -> i32 {
         "wall_s": wall,
         "violations": violations,
     });
+    let mut evidence = evidence;
+    evidence["coverage"]["build"] = json!(if cfg!(feature = "bench") { "benchmark feature (mempool/benchmark + consensus/benchmark)" } else { "default features" });
     let ev_dir = format!("{}/evidence", cfg.verif_dir);
     let _ = std::fs::create_dir_all(&ev_dir);
-    let ev_path = format!("{}/{}.json", ev_dir, spec.id);
+    // A check that covers two build configurations runs the benchmark build first and merges
+    // its evidence into the final file.
+    if let Ok(merge) = std::env::var("HSIM_MERGE") {
+        match std::fs::read(&merge).ok().and_then(|d| serde_json::from_slice::<serde_json::Value>(&d).ok()) {
+            Some(other) => {
+                let add = |a: &serde_json::Value, b: &serde_json::Value| json!(a.as_f64().unwrap_or(0.0) + b.as_f64().unwrap_or(0.0));
+                let ev = evidence["coverage"]["evaluations"].as_u64().unwrap_or(0) + other["coverage"]["evaluations"].as_u64().unwrap_or(0);
+                let dn = evidence["coverage"]["distinct_nontrivial"].as_u64().unwrap_or(0) + other["coverage"]["distinct_nontrivial"].as_u64().unwrap_or(0);
+                evidence["coverage"]["evaluations_default_build"] = evidence["coverage"]["evaluations"].clone();
+                evidence["coverage"]["evaluations"] = json!(ev);
+                evidence["coverage"]["distinct_nontrivial"] = json!(dn);
+                evidence["wall_s"] = add(&evidence["wall_s"], &other["wall_s"]);
+                evidence["violations"] = json!(evidence["violations"].as_i64().unwrap_or(0) + other["violations"].as_i64().unwrap_or(0));
+                evidence["coverage"]["benchmark_build"] = other["coverage"].clone();
+                let _ = std::fs::remove_file(&merge);
+            }
+            None => {
+                println!("HARNESS-ERROR: cannot merge evidence of the benchmark build from {}", merge);
+                if exit == 0 {
+                    exit = 2;
+                }
+            }
+        }
+    }
+    let stem = std::env::var("HSIM_EVIDENCE_NAME").unwrap_or_else(|_| spec.id.to_string());
+    let ev_path = format!("{}/{}.json", ev_dir, stem);
     if let Err(e) = std::fs::write(&ev_path, serde_json::to_string_pretty(&evidence).unwrap()) {
         println!("HARNESS-ERROR: cannot write evidence {}: {}", ev_path, e);
         if exit == 0 {
@@ -314,7 +341,7 @@ fn confirm_minimise_replay(cfg: &BatchCfg, spec: &PropSpec, sc: &Scenario, v: &V
     // 3. write the replay file.
     let dir = format!("{}/replays", cfg.verif_dir);
     std::fs::create_dir_all(&dir).map_err(|e| e.to_string())?;
-    let path = format!("{}/{}-{}-{}.json", dir, spec.id, sc.seed, v.rule);
+    let path = format!("{}/{}-{}{}-{}.json", dir, spec.id, if cfg!(feature = "bench") { "bench-" } else { "" }, sc.seed, v.rule);
     let rf = ReplayFile {
         property: v.prop.clone(),
         rule: v.rule.clone(),
@@ -481,4 +508,67 @@ fn minimise(sc: &Scenario, prop: &str, rule: &str, first: RunReport) -> (Scenari
         }
     }
     (best, best_rep)
+}
+
+/// Triage helper: run `runs` scenarios of a property's generator, do not stop at violations,
+/// and print every violation class of EVERY monitor with example seeds, plus probe totals.
+pub fn survey(spec: &PropSpec, batch_seed: u64, runs: usize, thorough: bool, threads: usize) -> i32 {
+    let next = AtomicUsize::new(0);
+    let (tx, rx) = mpsc::channel::<(u64, RunReport)>();
+    let mut classes: BTreeMap<String, (u64, Vec<u64>, String)> = BTreeMap::new();
+    let mut probes: BTreeMap<String, u64> = BTreeMap::new();
+    let mut faults: BTreeMap<String, u64> = BTreeMap::new();
+    let mut panics: BTreeMap<String, (u64, u64)> = BTreeMap::new();
+    let t0 = Instant::now();
+    std::thread::scope(|s| {
+        for _ in 0..threads {
+            let tx = tx.clone();
+            let next = &next;
+            s.spawn(move || loop {
+                let k = next.fetch_add(1, Ordering::SeqCst);
+                if k >= runs {
+                    break;
+                }
+                let sseed = scenario_seed(batch_seed, spec.id, k as u64);
+                let sc = (spec.gen)(sseed, thorough);
+                let rep = crate::runner::run_scenario(&sc);
+                if tx.send((sseed, rep)).is_err() {
+                    break;
+                }
+            });
+        }
+        drop(tx);
+        for (seed, rep) in rx {
+            for v in &rep.violations {
+                let e = classes.entry(format!("{}.{}", v.prop, v.rule)).or_insert((0, Vec::new(), v.detail.clone()));
+                e.0 += 1;
+                if e.1.len() < 4 {
+                    e.1.push(seed);
+                }
+            }
+            for (p, c) in &rep.probes {
+                *probes.entry(p.clone()).or_insert(0) += c;
+            }
+            for (p, c) in &rep.faults {
+                *faults.entry(p.clone()).or_insert(0) += c;
+            }
+            for p in &rep.panics {
+                let e = panics.entry(p.clone()).or_insert((0, seed));
+                e.0 += 1;
+            }
+            if let Some(e) = &rep.harness_error {
+                println!("harness error seed {}: {}", seed, e);
+            }
+        }
+    });
+    println!("survey {} runs={} wall={:.1}s", spec.id, runs, t0.elapsed().as_secs_f64());
+    for (c, (n, seeds, d)) in &classes {
+        println!("  VIOL {:40} x{:<5} seeds {:?}\n       e.g. {}", c, n, seeds, d);
+    }
+    for (p, (n, seed)) in &panics {
+        println!("  PANIC x{} seed {}: {}", n, seed, p);
+    }
+    println!("  faults: {:?}", faults);
+    println!("  probes: {:?}", probes);
+    0
 }
